@@ -166,6 +166,7 @@ THEOREMS = [
     "Verif.C18.export_tiff_all_or_nothing",
     "Verif.C18.export_tiff_page_count",
     "Verif.C18.export_tiff_roundtrip",
+    "Verif.C18.stack_export_is_mixin_export",
 ]
 RULE = (
     "corpus + exhaustive small scope + seeded random + malformed stream. stack: real TIFF stacks written with tifffile "
@@ -774,13 +775,13 @@ def impl_confocal(case):
     r = _impl_confocal(case)
     obs = case.get("_obs", {})
     if "raw1" not in obs:
-        return r + ["not-written"] * (4 - len(r))
+        return r + ["not-written"] * (5 - len(r))
     raw = obs["raw1"]
     dt = raw[0]["dt"]
     a2 = dt if case["kind"] == "kymo" else enc_list([ord(ch) for ch in dt])
     ms = written_ms(raw)
     a3 = enc_ratlist([Fraction(float(x)) for x in ms]) if all(isinstance(x, float) for x in ms) else f"no-exposure-key:{ms!r}"
-    return r + [a2, a3]
+    return r + [a2, a3, glue_answer(raw)]
 
 
 def enc_ranges2(rr):
@@ -788,7 +789,19 @@ def enc_ranges2(rr):
 
 
 def ops_confocal(case):
-    return _ops_confocal(case) + _ops_confocal_tags(case)
+    return _ops_confocal(case) + _ops_confocal_tags(case) + [_op_confocal_whole(case)]
+
+
+def _op_confocal_whole(case):
+    """op 4: the whole export_tiff on what the confocal hooks return - the image of the (derived) object cut into frames
+    (ConfocalImage._tiff_frames: one frame for a kymograph / single-frame scan), its frame ranges with and without dead time"""
+    obs = case.get("_obs", {})
+    if "image" not in obs or not obs.get("dead") or not obs.get("exp"):
+        return "c18.exporttiff none F [] [] [] [] []"
+    img = np.asarray(obs["image"])
+    frames = img if (case["kind"] == "scan" and img.ndim >= 4) else img[None]
+    fr = "[" + ";".join(",".join(v if isinstance(v, str) else f"{v.numerator}/{v.denominator}" for v in arr_rats(f)) for f in frames) + "]"
+    return f"c18.exporttiff {case['dtype']} {enc_bool(case['clip'])} {fr} {enc_ranges2(obs['dead'])} {enc_ranges2(obs['exp'])}"
 
 
 def _ops_confocal_tags(case):
@@ -1432,14 +1445,18 @@ def impl_glue(case):
                     obs["error"] = "re-read: " + repr(e)
                     return [errname(e)]
         obs["raw"] = raw
-        pages = []
-        for pg in raw:
-            ms = json.loads(pg["desc"]).get("Exposure time (ms)")
-            pages.append("|".join([",".join(str(ord(ch)) for ch in pg["dt"]), str(Fraction(float(ms))) if isinstance(ms, float) else "nokey",
-                                   ",".join(v if isinstance(v, str) else f"{v.numerator}/{v.denominator}" for v in arr_rats(pg["img"]))]))
-        return ["ok [" + ";".join(pages) + "]"]
+        return [glue_answer(raw)]
     finally:
         rm(p)
+
+
+def glue_answer(raw):
+    pages = []
+    for pg in raw:
+        ms = json.loads(pg["desc"]).get("Exposure time (ms)")
+        pages.append("|".join([",".join(str(ord(ch)) for ch in pg["dt"]), str(Fraction(float(ms))) if isinstance(ms, float) else "nokey",
+                               ",".join(v if isinstance(v, str) else f"{v.numerator}/{v.denominator}" for v in arr_rats(pg["img"]))]))
+    return "ok [" + ";".join(pages) + "]"
 
 
 def ops_glue(case):
@@ -1674,7 +1691,7 @@ def agree(case, i, ia, ma):
         return True  # the derivation itself was refused (C06's business): nothing was exported, nothing to compare
     if ia == "not-written" and i > 0:
         return True  # the export was refused (op 0 compares that refusal with the model): there is no tag to read back
-    if case["kind"] == "glue":
+    if case["kind"] == "glue" or case["kind"] in ("kymo", "scan") and i == 4:
         return agree_glue(ia, ma)
     if (case["kind"] == "exposure" and i == 0 or case["kind"] in ("kymo", "scan") and i == 3) and ia.startswith("[") and ma.startswith("["):
         # the millisecond doubles: number policy (a double of the implementation within rel 1e-12 of the model's; `x / 1e6`
